@@ -306,8 +306,8 @@ def gen_history(rng, n_steps=8, timers=False, faults=True, p_good=0.85, reaction
     sc.env = env
     if faults and rng.random() < 0.3:
         sc.wfail = set(rng.sample(range(0, 6), rng.choice([1, 1, 2])))
-    if faults and rng.random() < 0.05:
-        sc.conn = rng.choice(['sockfail', 'otherfail'])
+    if faults and rng.random() < 0.07:
+        sc.conn = rng.choice(['sockfail', 'otherfail', 'selfail'])
     if reactions:
         sc.reactions = gen_reactions(rng, 14, density=rng.choice([0.0, 0.15, 0.4]), allow_close=closes)
     return sc
